@@ -36,3 +36,11 @@ package bytom
 //@   requires native != nil && params != nil
 //@   modifies nothing
 //@   ensures err == nil ==> (stored <==> Store[genKey(params.ChainID)] != None)
+
+//@ func GetCanonicalHeight
+//@   trusted   -- storage lookup of the tracked chain's head height; read-only (that the canonical chain is the heaviest valid one is C27/C29's subject)
+//@   modifies nothing
+//@ func GetCanonicalHeader
+//@   trusted   -- storage lookup in the canonical index; read-only
+//@   modifies nothing
+//@   ensures r1 == nil ==> r0 != nil
